@@ -24,6 +24,8 @@ EXTENDS Integers
 CONSTANTS
   \* @type: Int;
   MaxRem,     \* bound on the input length for TLC (ignored by the inductive check)
+  \* @type: Int;
+  FieldMax,   \* wire length fields range over 0..FieldMax and the maximum of their width (TLC: small; Apalache: 65535)
   \* @type: Set(Str);
   LOff        \* guards switched off (fault seeding); {} = the real design
 
@@ -64,8 +66,8 @@ LOn(g) == g \notin LOff
 Pcs == {"flags", "c_hdr", "c_len", "c_carve", "a_hdr", "a_len", "a_skip", "a_bytes", "a_sub",
         "a_min", "a_read", "a_tail", "d_min", "d_fields", "d_off", "d_skip", "d_ext", "d_pay", "done"}
 
-U16 == 0..65535
-AvpLens == 0..1023
+U16 == { x \in 0..65535 : x <= FieldMax \/ x = 65535 }
+AvpLens == { x \in 0..1023 : x <= FieldMax \/ x = 1023 }
 MinLens == 0..26            \* the largest minimum payload (Call Errors)
 Widths == {1, 2, 4, 8, 16}  \* fixed-width field sizes
 
@@ -74,7 +76,6 @@ Init ==
   /\ arem = 0 /\ prem = 0 /\ len = 0 /\ alen = 0 /\ need = 0 /\ hdr = 4 /\ hasL = FALSE /\ hasO = FALSE
   /\ osz = 0 /\ used = 0 /\ req = 0 /\ reqrem = 0
 
-Same(xs) == UNCHANGED xs
 Issue(n, r) == req' = n /\ reqrem' = r
 Quiet == req' = 0 /\ reqrem' = 0
 Done == pc' = "done" /\ Quiet
@@ -83,80 +84,80 @@ Done == pc' = "done" /\ Quiet
 Flags ==
   /\ pc = "flags"
   /\ IF LOn("Flags2") /\ rem < 2
-       THEN Done /\ Same(<<rem, arem, prem, len, alen, need, hdr, hasL, hasO, osz, used>>)
+       THEN Done /\ UNCHANGED <<rem, arem, prem, len, alen, need, hdr, hasL, hasO, osz, used>>
        ELSE /\ Issue(2, rem) /\ rem' = rem - 2 /\ used' = 2
             /\ pc' \in {"c_hdr", "d_min", "done"}          \* control / data / rejected by version, reserved, unused, L/S checks
-            /\ Same(<<arem, prem, len, alen, need, hdr, hasL, hasO, osz>>)
+            /\ UNCHANGED <<arem, prem, len, alen, need, hdr, hasL, hasO, osz>>
 
 CtlHeader ==
   /\ pc = "c_hdr"
   /\ IF LOn("CtlHdr10") /\ rem < 10
-       THEN Done /\ Same(<<rem, arem, prem, len, alen, need, hdr, hasL, hasO, osz, used>>)
+       THEN Done /\ UNCHANGED <<rem, arem, prem, len, alen, need, hdr, hasL, hasO, osz, used>>
        ELSE /\ Issue(10, rem) /\ rem' = rem - 10 /\ len' \in U16 /\ pc' = "c_len"
-            /\ Same(<<arem, prem, alen, need, hdr, hasL, hasO, osz, used>>)
+            /\ UNCHANGED <<arem, prem, alen, need, hdr, hasL, hasO, osz, used>>
 
 CtlLength ==
   /\ pc = "c_len" /\ Quiet
   /\ IF (LOn("CtlLen12") /\ len < 12) \/ (LOn("CtlLenFit") /\ len > rem + 12)
        THEN pc' = "done" ELSE pc' = "c_carve"
-  /\ Same(<<rem, arem, prem, len, alen, need, hdr, hasL, hasO, osz, used>>)
+  /\ UNCHANGED <<rem, arem, prem, len, alen, need, hdr, hasL, hasO, osz, used>>
 
 CtlCarve ==
   /\ pc = "c_carve"
   /\ Issue(len - 12, rem) /\ arem' = len - 12 /\ rem' = rem - (len - 12) /\ pc' = "a_hdr"
-  /\ Same(<<prem, len, alen, need, hdr, hasL, hasO, osz, used>>)
+  /\ UNCHANGED <<prem, len, alen, need, hdr, hasL, hasO, osz, used>>
 
 AvpHeader ==
   /\ pc = "a_hdr"
   /\ IF arem < 6
-       THEN Done /\ Same(<<rem, arem, prem, len, alen, need, hdr, hasL, hasO, osz, used>>)
+       THEN Done /\ UNCHANGED <<rem, arem, prem, len, alen, need, hdr, hasL, hasO, osz, used>>
        ELSE /\ Issue(6, arem) /\ arem' = arem - 6 /\ alen' \in AvpLens /\ pc' = "a_len"
-            /\ Same(<<rem, prem, len, need, hdr, hasL, hasO, osz, used>>)
+            /\ UNCHANGED <<rem, prem, len, need, hdr, hasL, hasO, osz, used>>
 
 AvpLength ==
   /\ pc = "a_len" /\ Quiet
   /\ IF (LOn("AvpLen6") /\ alen < 6) \/ (LOn("AvpFit") /\ alen - 6 > arem)
        THEN pc' = "done" ELSE pc' \in {"a_skip", "a_bytes", "a_sub"}      \* vendor-specific / hidden / ordinary
-  /\ Same(<<rem, arem, prem, len, alen, need, hdr, hasL, hasO, osz, used>>)
+  /\ UNCHANGED <<rem, arem, prem, len, alen, need, hdr, hasL, hasO, osz, used>>
 
 AvpSkip ==
   /\ pc = "a_skip"
   /\ Issue(alen - 6, arem) /\ arem' = arem - (alen - 6) /\ pc' = "a_hdr"
-  /\ Same(<<rem, prem, len, alen, need, hdr, hasL, hasO, osz, used>>)
+  /\ UNCHANGED <<rem, prem, len, alen, need, hdr, hasL, hasO, osz, used>>
 
 AvpBytes ==        \* bytes() is a checked operation: no request is issued
   /\ pc = "a_bytes" /\ Quiet
   /\ arem' = arem - (alen - 6) /\ pc' = "a_hdr"
-  /\ Same(<<rem, prem, len, alen, need, hdr, hasL, hasO, osz, used>>)
+  /\ UNCHANGED <<rem, prem, len, alen, need, hdr, hasL, hasO, osz, used>>
 
 AvpSub ==
   /\ pc = "a_sub"
   /\ Issue(alen - 6, arem) /\ prem' = alen - 6 /\ arem' = arem - (alen - 6)
   /\ need' \in MinLens /\ pc' \in {"a_min", "a_hdr"}                       \* known type / unknown type
-  /\ Same(<<rem, len, alen, hdr, hasL, hasO, osz, used>>)
+  /\ UNCHANGED <<rem, len, alen, hdr, hasL, hasO, osz, used>>
 
 AvpMin ==
   /\ pc = "a_min" /\ Quiet
   /\ IF LOn("AvpMin") /\ prem < need THEN pc' = "a_hdr" ELSE pc' = "a_read"
-  /\ Same(<<rem, arem, prem, len, alen, need, hdr, hasL, hasO, osz, used>>)
+  /\ UNCHANGED <<rem, arem, prem, len, alen, need, hdr, hasL, hasO, osz, used>>
 
 AvpRead ==         \* one fixed-width field (or reserved skip) of the field program
   /\ pc = "a_read"
   /\ IF need = 0
-       THEN /\ Quiet /\ pc' \in {"a_tail", "a_hdr"} /\ Same(<<prem, need>>)
+       THEN /\ Quiet /\ pc' \in {"a_tail", "a_hdr"} /\ UNCHANGED <<prem, need>>
        ELSE \E k \in MinLens :
               /\ k >= 1 /\ k <= need
               /\ Issue(k, prem) /\ prem' = prem - k /\ need' = need - k
               /\ pc' \in {"a_read", "a_hdr"}                                \* next field / enum or UTF-8 error
-  /\ Same(<<rem, arem, len, alen, hdr, hasL, hasO, osz, used>>)
+  /\ UNCHANGED <<rem, arem, len, alen, hdr, hasL, hasO, osz, used>>
 
 AvpTail ==         \* optional tail: Result Code's error type (two octets if at least two remain); text via bytes()
   /\ pc = "a_tail"
   /\ IF LOn("ErrTail2") /\ prem < 2
-       THEN Quiet /\ Same(<<prem>>)
+       THEN Quiet /\ UNCHANGED <<prem>>
        ELSE Issue(2, prem) /\ prem' = prem - 2
   /\ pc' = "a_hdr"
-  /\ Same(<<rem, arem, len, alen, need, hdr, hasL, hasO, osz, used>>)
+  /\ UNCHANGED <<rem, arem, len, alen, need, hdr, hasL, hasO, osz, used>>
 
 DataMin ==
   /\ pc = "d_min" /\ Quiet
@@ -164,41 +165,41 @@ DataMin ==
        /\ hasL' = l /\ hasO' = o
        /\ hdr' = 4 + (IF l THEN 2 ELSE 0) + (IF s THEN 4 ELSE 0) + (IF o THEN 2 ELSE 0)
        /\ IF LOn("DataMin") /\ rem < hdr' THEN pc' = "done" ELSE pc' = "d_fields"
-  /\ Same(<<rem, arem, prem, len, alen, need, osz, used>>)
+  /\ UNCHANGED <<rem, arem, prem, len, alen, need, osz, used>>
 
 DataFields ==
   /\ pc = "d_fields"
   /\ LET n == hdr - (IF hasO THEN 2 ELSE 0) IN
        /\ Issue(n, rem) /\ rem' = rem - n /\ used' = used + n
   /\ len' \in U16 /\ pc' = "d_off"
-  /\ Same(<<arem, prem, alen, need, hdr, hasL, hasO, osz>>)
+  /\ UNCHANGED <<arem, prem, alen, need, hdr, hasL, hasO, osz>>
 
 DataOffset ==
   /\ pc = "d_off"
   /\ IF hasO
        THEN Issue(2, rem) /\ rem' = rem - 2 /\ used' = used + 2 /\ osz' \in U16 /\ pc' = "d_skip"
-       ELSE Quiet /\ pc' = "d_ext" /\ Same(<<rem, used, osz>>)
-  /\ Same(<<arem, prem, len, alen, need, hdr, hasL, hasO>>)
+       ELSE Quiet /\ pc' = "d_ext" /\ UNCHANGED <<rem, used, osz>>
+  /\ UNCHANGED <<arem, prem, len, alen, need, hdr, hasL, hasO>>
 
 DataSkip ==
   /\ pc = "d_skip"
   /\ IF LOn("DataOffsetFit") /\ osz > rem
-       THEN Done /\ Same(<<rem, used>>)
+       THEN Done /\ UNCHANGED <<rem, used>>
        ELSE Issue(osz, rem) /\ rem' = rem - osz /\ used' = used + osz /\ pc' = "d_ext"
-  /\ Same(<<arem, prem, len, alen, need, hdr, hasL, hasO, osz>>)
+  /\ UNCHANGED <<arem, prem, len, alen, need, hdr, hasL, hasO, osz>>
 
 DataExtent ==      \* payload extent = Length - octets consumed so far; checked bytes() takes it
   /\ pc = "d_ext" /\ Quiet
   /\ IF hasL /\ ((LOn("DataLenMin") /\ len < used) \/ (LOn("DataLenFit") /\ len - used > rem))
        THEN pc' = "done" ELSE pc' = "d_pay"
-  /\ Same(<<rem, arem, prem, len, alen, need, hdr, hasL, hasO, osz, used>>)
+  /\ UNCHANGED <<rem, arem, prem, len, alen, need, hdr, hasL, hasO, osz, used>>
 
 DataPayload ==     \* the subtraction len - used must not underflow: modelled as a request of that size
   /\ pc = "d_pay"
   /\ IF hasL THEN Issue(len - used, rem) /\ rem' = rem - (len - used)
              ELSE Quiet /\ rem' = 0
   /\ pc' = "done"
-  /\ Same(<<arem, prem, len, alen, need, hdr, hasL, hasO, osz, used>>)
+  /\ UNCHANGED <<arem, prem, len, alen, need, hdr, hasL, hasO, osz, used>>
 
 Next ==
   \/ Flags \/ CtlHeader \/ CtlLength \/ CtlCarve
@@ -230,6 +231,8 @@ IndInv ==
   /\ (pc = "d_off" /\ hasO => rem >= 2)
   /\ (pc = "d_pay" /\ hasL => len >= used /\ len - used <= rem)
 
-\* for Apalache: any state satisfying IndInv as initial state
+\* for Apalache: any state satisfying IndInv as initial state; constants
 IndInit == IndInv
+ConstInit == MaxRem = 48 /\ FieldMax = 65535 /\ LOff = {}
+ConstInitNoAvpMin == MaxRem = 48 /\ FieldMax = 65535 /\ LOff = {"AvpMin"}
 =============================================================================
